@@ -141,6 +141,21 @@ def upper_bound(fn, defs, op, depth):
     if op.get("c") not in ("copy", "move"):
         return None
     pl = op["pl"]
+    if pl["p"] == [{"f": 0}] or (len(pl["p"]) == 1 and isinstance(pl["p"][0], dict) and pl["p"][0].get("f") == 0
+                                 and "adt" not in pl["p"][0]):
+        # `.0` of a checked arithmetic tuple: the overflow assert guarantees the exact result
+        ds = defs.get(pl["l"], [])
+        if len(ds) == 1 and ds[0][1] != "term" and ds[0][2]["k"] == "bin" and ds[0][2]["op"].endswith("WithOverflow"):
+            rv = ds[0][2]
+            a = upper_bound(fn, defs, rv["a"], depth + 1)
+            b = upper_bound(fn, defs, rv["b"], depth + 1)
+            if rv["op"] == "AddWithOverflow" and a is not None and b is not None:
+                return a + b
+            if rv["op"] == "MulWithOverflow" and a is not None and b is not None:
+                return a * b
+            if rv["op"] == "SubWithOverflow" and a is not None:
+                return a
+        return None
     if pl["p"]:
         return None
     ty = fn.local_ty(pl["l"])
@@ -182,6 +197,10 @@ def upper_bound(fn, defs, op, depth):
             b = min(cands) if cands else None
         elif rv["op"] == "Rem" and c2 is not None and c2 > 0:
             b = c2 - 1
+        elif rv["op"] in ("Add", "AddUnchecked"):
+            bb = upper_bound(fn, defs, rv["b"], depth + 1)
+            if a is not None and bb is not None:
+                b = a + bb        # callers compare with a bound far below the type's range
     if b is None:
         return tb
     if tb is not None:
